@@ -148,87 +148,101 @@ def d1(chk, prog):
                f"flags in the wrong class or unknown: {wrong}; missing: {sorted(set(cls_of) - {c for _, c in flags})}")
     # interpretation with tagged statistics
     tb = Table(chk, "right-bins", "do_segmetrics: arguments of every statistic (location / spread / interval)", fi.loc(), fi.qn)
-    for skip_low, any_answer in ((False, True), (True, True), (False, False)):
-        W.reset()
-        Bins.ANY = any_answer
-        model = Model()
-        seglog = [Term.sym("L0"), Term.sym("L1"), Term.sym("L2")]
-        segs = make_ga("CopyNumArray", [dict(chromosome="chr1", start=i * 100, end=i * 100 + 100, gene="-", log2=seglog[i], probes=2) for i in range(3)], {"sample_id": "S"}, index="any", exact=True)
-        bins = make_ga("CopyNumArray", [dict(chromosome="chr1", start=i * 10, end=i * 10 + 10, gene="g", log2=Term.sym(f"b{i}"), weight=Term.sym(f"w{i}")) for i in range(4)], {"sample_id": "S", "tag": "raw"}, exact=True)
-        ev = {}
+    # every statistic requested at once, and smaller requests (one / two of a class): the order and number of statistics asked for must not
+    # change what each one is computed on (a one-shot iterator shared between two statistics serves only the first)
+    requests = [(list(LOC), list(SPR), ['ci', 'pi']), (list(LOC)[:1], list(SPR)[:2], ['pi']), (list(LOC)[-2:], list(SPR)[-1:], ['ci']), ([], list(SPR)[1:3], [])]
+    for loc_req, spr_req, int_req in requests:
+      for skip_low, any_answer in (((False, True), (True, True), (False, False)) if len(loc_req) == len(LOC) else ((False, True),)):
+          W.reset()
+          Bins.ANY = any_answer
+          model = Model()
+          seglog = [Term.sym("L0"), Term.sym("L1"), Term.sym("L2")]
+          segs = make_ga("CopyNumArray", [dict(chromosome="chr1", start=i * 100, end=i * 100 + 100, gene="-", log2=seglog[i], probes=2) for i in range(3)], {"sample_id": "S"}, index="any", exact=True)
+          bins = make_ga("CopyNumArray", [dict(chromosome="chr1", start=i * 10, end=i * 10 + 10, gene="g", log2=Term.sym(f"b{i}"), weight=Term.sym(f"w{i}")) for i in range(4)], {"sample_id": "S", "tag": "raw"}, exact=True)
+          ev = {}
 
-        def iro(it, obj, other, column, mode="outer", keep_empty=True, ev=ev):
-            ev["iter_ranges_of"] = (obj.meta.get("tag"), other is segs, column, mode, keep_empty)
-            return [Bins(0, ["b0", "b1"], ["w0", "w1"]), Bins(1, [], []), Bins(2, ["b3"], ["w3"])]
-        model.method_prims["iter_ranges_of"] = iro
+          def iro(it, obj, other, column, mode="outer", keep_empty=True, ev=ev):
+              ev["iter_ranges_of"] = (obj.meta.get("tag"), other is segs, column, mode, keep_empty)
+              return [Bins(0, ["b0", "b1"], ["w0", "w1"]), Bins(1, [], []), Bins(2, ["b3"], ["w3"])]
+          model.method_prims["iter_ranges_of"] = iro
 
-        def dlc(it, obj, *a, **k):
-            g = GA(obj.cls, obj.data.copy(), obj.data.n, dict(obj.meta, tag="low-dropped"))
-            return g
-        model.method_prims["drop_low_coverage"] = dlc
+          def dlc(it, obj, *a, **k):
+              g = GA(obj.cls, obj.data.copy(), obj.data.n, dict(obj.meta, tag="low-dropped"))
+              return g
+          model.method_prims["drop_low_coverage"] = dlc
 
-        def tagger(name):
-            def f(it, a, *rest, **k):
-                return ("STAT", name, a.seg if isinstance(a, Bins) else a)
-            return f
-        for nm in ("np.mean", "np.median", "np.std", "scipy.stats.sem"):
-            model.ext[nm] = tagger(nm)
-        model.ext["scipy.stats.ttest_1samp"] = lambda it, a, popmean, **k: (("T", a.seg if isinstance(a, Bins) else a, popmean), ("STAT", "p_ttest", a.seg if isinstance(a, Bins) else a, popmean))
-        for nm in ("modal_location", "median_absolute_deviation", "mean_squared_error", "interquartile_range", "biweight_midvariance"):
-            model.prims[f"cnvlib.descriptives.{nm}"] = tagger(nm)
-        model.ext["np.fromiter"] = lambda it, iterable, dtype=None, count=-1: Vec(list(it.iterate(iterable)))
-        model.ext["np.repeat"] = lambda it, v, n: Vec([v] * (n if isinstance(n, int) else n.n))
-        model.prims[f"{SM}.confidence_interval_bootstrap"] = lambda it, v, w, alpha, boots, smoothed: (("CI_LO", v, w, repr(alpha), boots, smoothed), ("CI_HI", v, w, repr(alpha), boots, smoothed))
-        model.ext["np.percentile"] = lambda it, ser, q: (("PI_LO", ser, repr(q[0])), ("PI_HI", ser, repr(q[1])))
-        model.ext["warnings.simplefilter"] = lambda it, *a, **k: None
-        # the weight column is looked up by the bins' index labels
-        orig_w = bins.data.cols["weight"]
-        it = Interp(prog, model)
+          def tagger(name):
+              def f(it, a, *rest, **k):
+                  return ("STAT", name, a.seg if isinstance(a, Bins) else a)
+              return f
+          for nm in ("np.mean", "np.median", "np.std", "scipy.stats.sem"):
+              model.ext[nm] = tagger(nm)
+          model.ext["scipy.stats.ttest_1samp"] = lambda it, a, popmean, **k: (("T", a.seg if isinstance(a, Bins) else a, popmean), ("STAT", "p_ttest", a.seg if isinstance(a, Bins) else a, popmean))
+          for nm in ("modal_location", "median_absolute_deviation", "mean_squared_error", "interquartile_range", "biweight_midvariance"):
+              model.prims[f"cnvlib.descriptives.{nm}"] = tagger(nm)
+          model.ext["np.fromiter"] = fromiter
+          model.ext["np.repeat"] = lambda it, v, n: Vec([v] * (n if isinstance(n, int) else n.n))
+          model.prims[f"{SM}.confidence_interval_bootstrap"] = lambda it, v, w, alpha, boots, smoothed: (("CI_LO", v, w, repr(alpha), boots, smoothed), ("CI_HI", v, w, repr(alpha), boots, smoothed))
+          model.ext["np.percentile"] = lambda it, ser, q: (("PI_LO", ser, repr(q[0])), ("PI_HI", ser, repr(q[1])))
+          model.ext["warnings.simplefilter"] = lambda it, *a, **k: None
+          # the weight column is looked up by the bins' index labels
+          orig_w = bins.data.cols["weight"]
+          it = Interp(prog, model)
 
-        def attr_hook(it_, obj, attr):
-            return NotImplemented
-        wobj = Weights()
+          def attr_hook(it_, obj, attr):
+              return NotImplemented
+          wobj = Weights()
 
-        def ld(it_, obj, name, args, kw):
-            return NotImplemented
-        # route cnarr["weight"] to the Weights object: replace the column by a one-element holder understood by GA getitem
-        bins.data.cols["weight"] = wobj
-        bins2 = bins
-        alpha = Term.sym("alpha", 0, 1)
-        out = tb.guard(lambda: it.run(fi.qn, [bins2, segs, list(LOC), list(SPR), ["ci", "pi"], alpha, 77, True, skip_low]), f"skip_low={skip_low}")
-        if out is None:
-            continue
-        c = out.data.cols
-        ok = ev.get("iter_ranges_of") == ("low-dropped" if skip_low else "raw", True, "log2", "outer", True)
-        names = {"mean": "np.mean", "median": "np.median", "mode": "modal_location", "stdev": "np.std", "sem": "scipy.stats.sem", "mad": "median_absolute_deviation",
-                 "mse": "mean_squared_error", "iqr": "interquartile_range", "bivar": "biweight_midvariance"}
-        problems = []
-        for st in LOC:
-            for sgi in range(3):
-                v = c[st].v[sgi] if st in c else None
-                w = ("STAT", "p_ttest", sgi, 0.0) if st == "p_ttest" else ("STAT", names[st], sgi)
-                if v != w:
-                    problems.append(f"{st}[{sgi}] = {v!r}")
-        for st in SPR:
-            for sgi in range(3):
-                v = c[st].v[sgi] if st in c else None
-                w = ("STAT", names[st], ("DEV", sgi, repr(seglog[sgi])))
-                if v != w:
-                    problems.append(f"{st}[{sgi}] = {v!r}")
-        for lo, hi, tagl, tagh in (("ci_lo", "ci_hi", "CI_LO", "CI_HI"), ("pi_lo", "pi_hi", "PI_LO", "PI_HI")):
-            for sgi in (0, 2):
-                vl, vh = (c[lo].v[sgi], c[hi].v[sgi]) if lo in c and hi in c else (None, None)
-                okv = isinstance(vl, tuple) and isinstance(vh, tuple) and vl[0] == tagl and vh[0] == tagh and vl[1] == ("VALUES", sgi) and vh[1] == ("VALUES", sgi)
-                if tagl == "CI_LO":
-                    okv = okv and vl[2] == ("WEIGHTS", sgi) and vl[3] == "alpha" and vl[4] == 77 and vl[5] is True
-                if not okv:
-                    problems.append(f"{lo}/{hi}[{sgi}] = {vl!r} / {vh!r}")
-            if lo in c and not is_nan_like(c[lo].v[1]):
-                problems.append(f"{lo}[1] (segment without bins) = {c[lo].v[1]!r}, expected missing")
-        keep_cols = all(same(c["log2"].v[i], seglog[i]) for i in range(3)) and list(segs.data.cols) == ["chromosome", "start", "end", "gene", "log2", "probes"] and out is not segs
-        Bins.ANY = True
-        tb.cell(ok and not problems and keep_cols, dict(skip_low=skip_low, bins_all_zero=not any_answer, iter_ranges_of=ev.get("iter_ranges_of"), problems=problems[:6], input_segments_untouched=keep_cols))
+          def ld(it_, obj, name, args, kw):
+              return NotImplemented
+          # route cnarr["weight"] to the Weights object: replace the column by a one-element holder understood by GA getitem
+          bins.data.cols["weight"] = wobj
+          bins2 = bins
+          alpha = Term.sym("alpha", 0, 1)
+          out = tb.guard(lambda: it.run(fi.qn, [bins2, segs, list(loc_req), list(spr_req), list(int_req), alpha, 77, True, skip_low]), f"skip_low={skip_low} location={loc_req} spread={spr_req} interval={int_req}")
+          if out is None:
+              continue
+          c = out.data.cols
+          ok = ev.get("iter_ranges_of") == ("low-dropped" if skip_low else "raw", True, "log2", "outer", True)
+          names = {"mean": "np.mean", "median": "np.median", "mode": "modal_location", "stdev": "np.std", "sem": "scipy.stats.sem", "mad": "median_absolute_deviation",
+                   "mse": "mean_squared_error", "iqr": "interquartile_range", "bivar": "biweight_midvariance"}
+          problems = []
+          for st in loc_req:
+              for sgi in range(3):
+                  v = c[st].v[sgi] if st in c else None
+                  w = ("STAT", "p_ttest", sgi, 0.0) if st == "p_ttest" else ("STAT", names[st], sgi)
+                  if v != w:
+                      problems.append(f"{st}[{sgi}] = {v!r}")
+          for st in spr_req:
+              for sgi in range(3):
+                  v = c[st].v[sgi] if st in c else None
+                  w = ("STAT", names[st], ("DEV", sgi, repr(seglog[sgi])))
+                  if v != w:
+                      problems.append(f"{st}[{sgi}] = {v!r}")
+          for lo, hi, tagl, tagh in [x for x in (("ci_lo", "ci_hi", "CI_LO", "CI_HI"), ("pi_lo", "pi_hi", "PI_LO", "PI_HI")) if x[0][:2] in int_req]:
+              for sgi in (0, 2):
+                  vl, vh = (c[lo].v[sgi], c[hi].v[sgi]) if lo in c and hi in c else (None, None)
+                  okv = isinstance(vl, tuple) and isinstance(vh, tuple) and vl[0] == tagl and vh[0] == tagh and vl[1] == ("VALUES", sgi) and vh[1] == ("VALUES", sgi)
+                  if tagl == "CI_LO":
+                      okv = okv and vl[2] == ("WEIGHTS", sgi) and vl[3] == "alpha" and vl[4] == 77 and vl[5] is True
+                  if not okv:
+                      problems.append(f"{lo}/{hi}[{sgi}] = {vl!r} / {vh!r}")
+              if lo in c and not is_nan_like(c[lo].v[1]):
+                  problems.append(f"{lo}[1] (segment without bins) = {c[lo].v[1]!r}, expected missing")
+          keep_cols = all(same(c["log2"].v[i], seglog[i]) for i in range(3)) and list(segs.data.cols) == ["chromosome", "start", "end", "gene", "log2", "probes"] and out is not segs
+          Bins.ANY = True
+          tb.cell(ok and not problems and keep_cols, dict(skip_low=skip_low, location_stats=loc_req, spread_stats=spr_req, interval_stats=int_req, bins_all_zero=not any_answer, iter_ranges_of=ev.get("iter_ranges_of"), problems=problems[:6], input_segments_untouched=keep_cols))
+
     tb.done("a segment statistic is computed on the wrong bins / operand (or the input segments are altered)")
+
+
+def fromiter(it, iterable, dtype=None, count=-1):
+    items = list(it.iterate(iterable))
+    if isinstance(count, int) and count >= 0:
+        if len(items) < count:
+            raise Raised("ValueError", f"np.fromiter: iterator too short: {len(items)} of the {count} items asked for")
+        items = items[:count]
+    return Vec(items)
 
 
 def is_nan_like(x):
